@@ -1,7 +1,7 @@
 (* C09 — OVF files round-trip fields and follow the OVF 1.0/2.0 format.
    ONLY statements, each closed by [exact] of a lemma proved in proofs/, followed by
    Print Assumptions. *)
-From DF Require Import Prelude Constants_gen Region Mesh Ovf C09_faults.
+From DF Require Import Prelude Constants_gen Region Mesh Ovf C09_layout C09_codec C09_faults C09_mesh.
 Open Scope Q_scope.
 
 (* a binary file whose check value is not the one of its representation is rejected *)
@@ -40,3 +40,139 @@ Theorem C09_faults_tail : forall (V : Type) (d : V) (rd : repr -> V -> V)
   is_ok (decode d rd fl side) = false.
 Proof. exact bad_tail_rejected. Qed.
 Print Assumptions C09_faults_tail.
+
+(* ---------------------------------------------------------------- layout *)
+(* "x fastest": flat[((k*ny + j)*nx + i)*nv + c] of the transposed array is component c of cell
+   (i,j,k), for all shapes, for every element type *)
+Theorem C09_layout : forall (V : Type) (d : V) (nx ny nz nv : nat) (a : list V) (i j k c : nat),
+  (i < nx)%nat -> (j < ny)%nat -> (k < nz)%nat -> (c < nv)%nat ->
+  nth (opos nx ny nv i j k c) (to_ovf_order d nx ny nz nv a) d = nth (cpos ny nz nv i j k c) a d.
+Proof. exact to_ovf_order_nth. Qed.
+Print Assumptions C09_layout.
+
+Theorem C09_layout_length : forall (V : Type) (d : V) (nx ny nz nv : nat) (a : list V),
+  length (to_ovf_order d nx ny nz nv a) = (nz * (ny * (nx * nv)))%nat.
+Proof. exact to_ovf_order_length. Qed.
+Print Assumptions C09_layout_length.
+
+(* reshape + transpose back inverts the written order on every array of shape (nx,ny,nz,nv) *)
+Theorem C09_layout_inverse : forall (V : Type) (d : V) (nx ny nz nv : nat) (a : list V),
+  length a = (nx * (ny * (nz * nv)))%nat ->
+  from_ovf_order d nx ny nz nv (to_ovf_order d nx ny nz nv a) = a.
+Proof. exact from_to_ovf_order. Qed.
+Print Assumptions C09_layout_inverse.
+
+(* values: written through g (identity for bin8, float32 rounding for bin4, decimal text for txt),
+   read through h; whatever follows the announced block is ignored.  With g = h = identity this is
+   bit-identity of bin8 for every element type. *)
+Theorem C09_roundtrip_values : forall (V : Type) (d : V) (nx ny nz nv : nat) (a : list V)
+    (g h : V -> V) (extra : list V),
+  length a = (nx * (ny * (nz * nv)))%nat ->
+  map h (from_ovf_order d nx ny nz nv
+           (firstn (nx * ny * nz * nv) (map g (to_ovf_order d nx ny nz nv a) ++ extra)))
+  = map (fun v => h (g v)) a.
+Proof. exact from_to_ovf_order_map. Qed.
+Print Assumptions C09_roundtrip_values.
+
+(* ---------------------------------------------------------------- writer *)
+(* header of every file the writer produces: OVF 2.0, xbase = pmin + cell/2, stepsize = cell,
+   nodes = n, min/max = region corners, valuedim, check value of the representation *)
+Theorem C09_header : forall (V : Type) (d zero : V) (wr : repr -> V -> V)
+    (f : ofield V) (rp : repr) (extend ss : bool) (fl : ovf_file V) (sc : option sidecar),
+  encode d zero wr f rp extend ss = OK (fl, sc) ->
+  let m := of_mesh f in
+  f_v2 fl = true /\
+  f_base fl = map2 (fun lo c => lo + c / 2) (pmin (reg m)) (cell m) /\
+  f_step fl = cell m /\ f_nodes fl = n m /\
+  f_min fl = pmin (reg m) /\ f_max fl = pmax (reg m) /\
+  f_meshunit fl = hd ""%string (units (reg m)) /\
+  f_valuedim fl = Some (Z.of_nat (if extend && (of_nvdim f =? 1)%nat then 3%nat else of_nvdim f)) /\
+  f_rep fl = rp /\
+  f_check fl = (match rp with RTxt => None | _ => Some (check_value rp) end) /\
+  f_tail_ok fl = true.
+Proof. exact encode_header. Qed.
+Print Assumptions C09_header.
+
+(* the data block of every written file is x fastest *)
+Theorem C09_written_layout : forall (V : Type) (d zero : V) (wr : repr -> V -> V)
+    (f : ofield V) (rp : repr) (ss : bool) (fl : ovf_file V) (sc : option sidecar),
+  encode d zero wr f rp false ss = OK (fl, sc) ->
+  exists nx ny nz, dims3 (of_mesh f) = Some (nx, ny, nz) /\
+    length (f_payload fl) = (nz * (ny * (nx * of_nvdim f)))%nat /\
+    forall i j k c, (i < nx)%nat -> (j < ny)%nat -> (k < nz)%nat -> (c < of_nvdim f)%nat ->
+      nth (opos nx ny (of_nvdim f) i j k c) (f_payload fl) (wr rp d)
+      = wr rp (nth (cpos ny nz (of_nvdim f) i j k c) (of_vals f) d).
+Proof. exact written_layout. Qed.
+Print Assumptions C09_written_layout.
+
+(* ---------------------------------------------------------------- reader (own and foreign files) *)
+(* every accepted file (OVF 1.0 or 2.0, any representation): component count from the header
+   (3 for OVF 1.0) and cell (i,j,k), component c, is entry ((k*ny+j)*nx+i)*vd+c of the block *)
+Theorem C09_foreign : forall (V : Type) (d : V) (rd : repr -> V -> V)
+    (fl : ovf_file V) (side : option sidecar) (f' : ofield V),
+  decode d rd fl side = OK f' ->
+  of_nvdim f' = file_vd fl /\
+  exists nx ny nz, dims3 (of_mesh f') = Some (nx, ny, nz) /\
+    length (of_vals f') = (nx * (ny * (nz * file_vd fl)))%nat /\
+    forall i j k c, (i < nx)%nat -> (j < ny)%nat -> (k < nz)%nat -> (c < file_vd fl)%nat ->
+      nth (cpos ny nz (file_vd fl) i j k c) (of_vals f') (rd (f_rep fl) d)
+      = rd (f_rep fl) (nth (opos nx ny (file_vd fl) i j k c) (f_payload fl) d).
+Proof. exact decode_layout. Qed.
+Print Assumptions C09_foreign.
+
+Theorem C09_foreign_ovf1 : forall (V : Type) (d : V) (rd : repr -> V -> V)
+    (fl : ovf_file V) (side : option sidecar) (f' : ofield V),
+  f_v2 fl = false -> decode d rd fl side = OK f' -> of_nvdim f' = 3%nat.
+Proof. exact decode_ovf1. Qed.
+Print Assumptions C09_foreign_ovf1.
+
+(* ---------------------------------------------------------------- labels *)
+(* labels without "_" and without spaces come back unchanged ... *)
+Theorem C09_labels_partial : forall l : list string,
+  Forall (fun c => has_us c = false /\ has_sp c = false) l ->
+  map convert_label (map field_label l) = l.
+Proof. exact labels_roundtrip. Qed.
+Print Assumptions C09_labels_partial.
+
+Example C09_labels_partial_nonvacuous :
+  Forall (fun c => has_us c = false /\ has_sp c = false) ["mx"; "my"; "mz"]%string.
+Proof. repeat constructor. Qed.
+
+(* ... but the full statement ("any labels without spaces") is false of the faithful model:
+   labels m_x, m_y are read back as x, y *)
+Theorem C09_labels_refuted : exists f', wit_roundtrip ["m_x"; "m_y"]%string RBin8 false = OK f' /\
+  of_vdims f' = Some ["x"; "y"]%string.
+Proof. exact wit_labels_refuted. Qed.
+Print Assumptions C09_labels_refuted.
+
+(* extend_scalar=True on a two-component field: the binary writers fail, the text writer writes a
+   file that the reader rejects *)
+Theorem C09_extend_vector_refuted :
+  is_ok (encode 0 0 idQ (wit_field ["a"; "b"]%string) RBin8 true true) = false /\
+  is_ok (encode 0 0 idQ (wit_field ["a"; "b"]%string) RBin4 true true) = false /\
+  is_ok (encode 0 0 idQ (wit_field ["a"; "b"]%string) RTxt true true) = true /\
+  is_ok (wit_roundtrip ["a"; "b"]%string RTxt true) = false.
+Proof. exact wit_extend_vector_refuted. Qed.
+Print Assumptions C09_extend_vector_refuted.
+
+(* the same witness field with clean labels and extend_scalar off does round-trip completely *)
+Example C09_roundtrip_nonvacuous : exists f', wit_roundtrip ["a"; "b"]%string RBin8 false = OK f' /\
+  of_vdims f' = Some ["a"; "b"]%string /\ of_unit f' = Some "A/m"%string /\ of_nvdim f' = 2%nat /\
+  n (of_mesh f') = [2; 1; 1]%Z /\ of_vals f' = [1; 2; 3; 4].
+Proof. exact wit_ok. Qed.
+
+(* ---------------------------------------------------------------- mesh recovery *)
+(* the reader rebuilds the mesh with Mesh(region, cell=stepsize): for the stepsize the writer
+   stores (edge / n, C09_header) it accepts and returns exactly the original cell counts, for
+   every region, every n, every non-negative tolerance factor *)
+Theorem C09_mesh_reconstructed : forall (r : region) (k0 k1 k2 : Z) (x0 y0 z0 x1 y1 z1 : Q),
+  pmin r = [x0; y0; z0] -> pmax r = [x1; y1; z1] ->
+  x0 < x1 -> y0 < y1 -> z0 < z1 -> (0 < k0)%Z -> (0 < k1)%Z -> (0 < k2)%Z -> 0 <= tf r ->
+  mesh_by_cell r [cell_of x0 x1 k0; cell_of y0 y1 k1; cell_of z0 z1 k2]
+  = OK (mkMesh r [k0; k1; k2] "" []).
+Proof. exact reconstruct3. Qed.
+Print Assumptions C09_mesh_reconstructed.
+
+Example C09_mesh_reconstructed_nonvacuous :
+  mesh_by_cell (reg wit_mesh) [cell_of 0 2 2; cell_of 0 1 1; cell_of 0 1 1] = OK wit_mesh.
+Proof. vm_compute. reflexivity. Qed.
